@@ -1,5 +1,6 @@
 import Gomjml.Core.Frame
 import Gomjml.Gen.PkgVars
+import Gomjml.Gen.Census
 /-! # C07 — concurrent compilations are isolated from each other (property theorems only) -/
 namespace Gomjml.Props.C07
 open Gomjml.Frame
@@ -10,10 +11,13 @@ def sharedWriters : List (String × String × String) :=
   Gomjml.Gen.PkgVars.pkgVarWriters.filter (fun r =>
     r.2.2 != "once" && r.2.2 != "init" && r.1 != "mjml.cleanupCancel" && r.1 != "mjml.sfCalls")
 
-/-- Regenerated fact (partial): the only shared location written during a compilation is the process-wide attribute store.
-    This site is the recorded finding C07-F1; any other row breaks this theorem. -/
-theorem C07_shared_writers_partial :
-    sharedWriters = [("mjml/globals.instance", "mjml/globals.SetGlobalAttributes", "plain")] := by decide
+/-- Regenerated fact: the only package-level variable with a run-time writer is the old process-wide attribute store, written
+    by `globals.SetGlobalAttributes` alone — and nothing in the module calls that function any more (72a1ca4: every compilation
+    carries its own store): no location shared between compilations is written while compiling.  Any new writer, or any new
+    caller of the setter, breaks this theorem. -/
+theorem C07_no_shared_writes :
+    sharedWriters = [("mjml/globals.instance", "mjml/globals.SetGlobalAttributes", "plain")] ∧
+    Gomjml.Gen.Census.census.filter (fun r => r.2.1 == "globals.SetGlobalAttributes") = [] := by decide
 
 /-- **C07 (isolation), proved for every schedule**: if no thread writes a shared location, every thread reads from shared
     memory exactly what it would read running alone (the initial contents) — so its output is its solo output -/
@@ -23,8 +27,8 @@ theorem C07_isolated (R : Loc → Prop) (m0 : Loc → Val) (σ : List Nat) (s : 
     ∀ t l v, (l, v) ∈ (run s σ).trace t → R l → v = m0 l :=
   (frame R m0 σ s hw hm ht).2
 
-/-- **The hypothesis is false of the code** (C07-F1): with `globals.instance` (location 0) written by every compilation, there
-    is a 3-step schedule in which compilation 1 reads the attributes of compilation 2.  Kernel-checked. -/
+/-- why the hypothesis matters (the code before 72a1ca4, finding C07-F1, closed): with one location written by every compilation
+    there is a 3-step schedule in which compilation 1 reads the attributes of compilation 2.  Kernel-checked. -/
 def twoRenders : Sys :=
   { mem := fun _ => 0,
     progs := fun t => if t = 1 then [.write 0 11, .read 0] else if t = 2 then [.write 0 22, .read 0] else [],
